@@ -15,16 +15,28 @@ Definition hex_digit (n : N) : string :=
   | 8%N => "8" | 9%N => "9" | 10%N => "a" | 11%N => "b" | 12%N => "c" | 13%N => "d" | 14%N => "e" | _ => "f"
   end.
 Definition hex_byte (b : byte) : string := hex_digit (b / 16 mod 16) ++ hex_digit (b mod 16).
-Fixpoint hex_body (l : list byte) : string :=
-  match l with [] => "" | b :: r => hex_byte b ++ hex_body r end.
+
+(* concatenation of many pieces by pairwise merging: n log n character copies where the right-nested fold takes n^2
+   with the extracted (native, immutable) strings - long NALs and id lists are printed with this *)
+Fixpoint pair_up (l : list string) : list string :=
+  match l with a :: b :: r => (a ++ b) :: pair_up r | _ => l end.
+Fixpoint cat_rounds (n : nat) (l : list string) : string :=
+  match n with
+  | O => fold_right append "" l
+  | S n' => match l with [] => "" | [x] => x | _ => cat_rounds n' (pair_up l) end
+  end.
+Definition cat (l : list string) : string := cat_rounds 64 l.
+
+Definition hex_body (l : list byte) : string := cat (map hex_byte l).
 Definition hex (l : list byte) : string := match l with [] => "-" | _ => hex_body l end.
 
-Fixpoint join (sep : string) (l : list string) : string :=
+Fixpoint intersperse (sep : string) (l : list string) : list string :=
   match l with
-  | [] => ""
-  | [x] => x
-  | x :: r => x ++ sep ++ join sep r
+  | [] => []
+  | [x] => [x]
+  | x :: r => x :: sep :: intersperse sep r
   end.
+Definition join (sep : string) (l : list string) : string := cat (intersperse sep l).
 
 Definition show_list {A} (f : A -> string) (l : list A) : string := "[" ++ join "," (map f l) ++ "]".
 Definition show_option {A} (f : A -> string) (o : option A) : string :=
